@@ -80,7 +80,7 @@ func (c *Ctx) Sample(s interface{}) {
 
 func (c *Ctx) Violate(prop, key, detail string, replay interface{}) {
 	for _, v := range c.Rep.Violations {
-		if v.Key == key { // keep the first (smallest) replay per cause
+		if v.Key == key && v.Property == prop { // keep the first (smallest) replay per cause and property
 			return
 		}
 	}
